@@ -23,9 +23,10 @@ import (
 type action struct {
 	Name string `json:"name"`
 	V    string `json:"v"`
-	Var  int    `json:"var"`
+	Var  string `json:"var"` // shape of the block content: full | emptydiff | empty | bare
 	F    string `json:"f"`
 	Kind string `json:"kind"`
+	Seal string `json:"seal"`
 	H    int    `json:"h"`
 }
 
@@ -81,7 +82,7 @@ type pendingBlock struct {
 	commitments *core.BlockCommitments
 }
 
-func cidKey(h, variant int, v string) string { return fmt.Sprintf("%d/%d/%s", h, variant, v) }
+func cidKey(h int, shape, v string) string { return fmt.Sprintf("%d/%s/%s", h, shape, v) }
 
 func (w *world) apply(c *content) {
 	for _, a := range c.deploys {
@@ -112,12 +113,58 @@ func (w *world) apply(c *content) {
 	w.classes = append(w.classes, c.sierra...)
 }
 
-// genContent produces the block content of variant `variant` for the twin's current head.
-func (s *session) genContent(v string, minimal bool) (*content, error) {
+// genContent produces block content of the given shape for the twin's current head:
+//   full      - every diff section, Cairo-0 and Sierra classes, all ten transaction kinds, events,
+//               messages, a reverted receipt
+//   prelude   - the diff and classes of full, no transactions
+//   emptydiff - the transactions of full, NOT ONE state-diff entry (sections empty or nil), no class
+//   empty     - no transaction and no state-diff entry
+//   bare      - an invoke v3 and an L1 handler without events / messages / reverts; the diff only
+//               deploys one contract; no class
+func (s *session) genContent(v string, shape string) (*content, error) {
 	g, w := s.g, s.w
 	d := chainkit.EmptyDiff()
 	classes := map[felt.Felt]core.ClassDefinition{}
 	c := &content{version: v}
+	switch shape {
+	case "emptydiff", "empty":
+		if g.R.Intn(2) == 0 {
+			d = &core.StateDiff{} // nil sections: the same (empty) diff
+		}
+	case "bare":
+		a := *g.Felt()
+		d.DeployedContracts[a] = g.Felt()
+		c.deploys = append(c.deploys, a)
+	}
+	if shape == "full" || shape == "prelude" {
+		s.fullDiff(v, d, classes, c)
+	}
+	var txs []core.Transaction
+	var rcs []*core.TransactionReceipt
+	switch shape {
+	case "full", "emptydiff":
+		txs, rcs = s.fullTxs()
+	case "bare":
+		for _, k := range []string{"invoke3", "l1handler"} {
+			tx := s.richTx(k)
+			r := g.Receipt(tx, nil)
+			r.Reverted, r.RevertReason, r.L2ToL1Message = false, "", []*core.L2ToL1Message{}
+			txs, rcs = append(txs, tx), append(rcs, r)
+		}
+	}
+	spec := chainkit.BlockSpec{Version: v, Diff: d, Classes: classes, Txs: txs, Receipts: rcs,
+		Timestamp: uint64(1_700_000_000 + g.R.Intn(1000)), Sequencer: g.Felt(), L1DAMode: core.L1DAMode(g.R.Intn(2))}
+	b, err := s.twin.Build(spec)
+	if err != nil {
+		return nil, err
+	}
+	c.built = b
+	_ = w
+	return c, nil
+}
+
+func (s *session) fullDiff(v string, d *core.StateDiff, classes map[felt.Felt]core.ClassDefinition, c *content) {
+	g, w := s.g, s.w
 	for i := 0; i < 2; i++ {
 		h, cls := g.Cairo0Class()
 		d.DeclaredV0Classes = append(d.DeclaredV0Classes, &h)
@@ -160,16 +207,18 @@ func (s *session) genContent(v string, minimal bool) (*content, error) {
 	}
 	if v >= "0.14.1" {
 		for i, sh := range w.sierraV1 {
-			if i >= 2 {
+			if i >= 1 { // one per block: the prelude's four classes last for any chain of the model
 				break
 			}
 			d.MigratedClasses[felt.SierraClassHash(sh)] = felt.CasmClassHash(w.casmV2[sh])
 			c.migrated = append(c.migrated, sh)
 		}
 	}
-	var txs []core.Transaction
-	var rcs []*core.TransactionReceipt
-	if !minimal {
+}
+
+func (s *session) fullTxs() (txs []core.Transaction, rcs []*core.TransactionReceipt) {
+	g := s.g
+	{
 		kinds := append([]string{}, chainkit.TxKinds...)
 		g.R.Shuffle(len(kinds), func(i, j int) { kinds[i], kinds[j] = kinds[j], kinds[i] })
 		for i, k := range kinds {
@@ -198,14 +247,7 @@ func (s *session) genContent(v string, minimal bool) (*content, error) {
 			rcs = append(rcs, r)
 		}
 	}
-	spec := chainkit.BlockSpec{Version: v, Diff: d, Classes: classes, Txs: txs, Receipts: rcs,
-		Timestamp: uint64(1_700_000_000 + g.R.Intn(1000)), Sequencer: g.Felt(), L1DAMode: core.L1DAMode(g.R.Intn(2))}
-	b, err := s.twin.Build(spec)
-	if err != nil {
-		return nil, err
-	}
-	c.built = b
-	return c, nil
+	return txs, rcs
 }
 
 // richTx: a chainkit transaction whose array fields have an element to alter.
@@ -232,7 +274,7 @@ func (s *session) pristine(a action) (*content, error) {
 	if c, ok := s.cache[k]; ok {
 		return c, nil
 	}
-	c, err := s.genContent(a.V, false)
+	c, err := s.genContent(a.V, a.Var)
 	if err != nil {
 		return nil, err
 	}
@@ -355,7 +397,7 @@ func newSession(seed int64, idx int, beh []step) (*session, error) {
 	newState := idx%2 == 1
 	prelude := (idx/2)%3 != 0
 	for _, st := range beh {
-		if st.A.H == 0 && needsPriorState[st.A.F] {
+		if needsPriorState[st.A.F] { // contracts to replace / classes to migrate must exist below
 			prelude = true
 		}
 	}
@@ -366,7 +408,7 @@ func newSession(seed int64, idx int, beh []step) (*session, error) {
 	if prelude {
 		// two blocks below the model's chain: contracts and V1-declared Sierra classes exist
 		for i := 0; i < 2; i++ {
-			c, err := s.genContent("0.13.2", true)
+			c, err := s.genContent("0.13.2", "prelude")
 			if err != nil {
 				return nil, fmt.Errorf("prelude build: %w", err)
 			}
@@ -401,6 +443,8 @@ func TestBlockVerifyReplay(t *testing.T) {
 		seed = vh.Seed()
 	}
 	covered := map[string]int{}
+	shapeCovered := map[string]int{}
+	shapeOffers := map[string]int{}
 	skipped := map[string]int{}
 	stages := map[string]int{}
 	nsteps := 0
@@ -449,6 +493,7 @@ func TestBlockVerifyReplay(t *testing.T) {
 					continue steps // nothing offered: the model's rejected step changes nothing either
 				}
 				covered[a.F+"@"+a.V]++
+				shapeCovered[a.Var+":"+a.F]++
 				tag = "accepted-tamper:" + a.F
 				outc, accepts = s.run(o), c
 			case "OfferWrongParent":
@@ -462,22 +507,31 @@ func TestBlockVerifyReplay(t *testing.T) {
 					o.B.Number++
 				}
 				rehash(t, o)
-				tag += ":" + a.Kind
+				tag += ":" + a.Kind + ":" + a.Var
 				outc = s.run(o)
 			case "OfferWrongRoot":
 				switch a.Kind {
 				case "root":
 					o.B.GlobalStateRoot = bump(o.B.GlobalStateRoot)
 					o.U.NewRoot = bump(o.U.NewRoot)
-				case "diff":
-					if !mutatorFor("sd.storage.value")(o) {
-						t.Fatal("no storage entry to alter")
+				case "diff": // alter an entry where there is one, else add one (empty-diff shapes)
+					done := false
+					for _, f := range []string{"sd.storage.value", "sd.deployed.class_hash", "sd.nonce.add"} {
+						if mutatorFor(f)(o) {
+							done = true
+							break
+						}
+					}
+					if !done {
+						t.Fatal("no way to alter the state diff")
 					}
 				case "oldroot":
 					o.U.OldRoot = bump(o.U.OldRoot)
 				}
-				rehash(t, o)
-				tag += ":" + a.Kind
+				if a.Seal == "resealed" {
+					rehash(t, o)
+				}
+				tag += ":" + a.Kind + ":" + a.Seal + ":" + a.Var
 				outc = s.run(o)
 			case "OfferStaleClassHash":
 				// re-key one Sierra definition under another class hash, consistently in the diff
@@ -541,6 +595,7 @@ func TestBlockVerifyReplay(t *testing.T) {
 				t.Fatalf("behaviour %d step %d %s %s: juno panicked: %s", idx, i, a.Name, a.F, outc.Err)
 			}
 			stages[a.Name+":"+st.Res.Why+"->"+outc.Kind+"@"+outc.Stage]++
+			shapeOffers[a.Name+"/"+a.Kind+"/"+a.Seal+"/"+a.Var+fmt.Sprintf("/h>0=%v", a.H > 0)]++
 			obs := vh.J{"outcome": outc}
 			// (1) accept / reject as the specification says
 			if outc.Kind != st.Res.Kind {
@@ -594,6 +649,8 @@ func TestBlockVerifyReplay(t *testing.T) {
 	}
 	out.Stats["covered"] = cov
 	out.Stats["outcomes"] = stages
+	out.Stats["shape_field_tampers_replayed"] = len(shapeCovered)
+	out.Stats["offers_by_shape"] = shapeOffers
 }
 
 // rehash makes o consistent again apart from the altered linkage / root: the block hash is
@@ -631,8 +688,8 @@ func (s *session) compareChain(st step) string {
 		return fmt.Sprintf("height: specification %d, juno %d", st.Height, got)
 	}
 	for i, cid := range st.Chain {
-		var hh, vr int
-		var v string
+		var hh int
+		var vr, v string
 		_ = json.Unmarshal(cid[0], &hh)
 		_ = json.Unmarshal(cid[1], &vr)
 		_ = json.Unmarshal(cid[2], &v)
